@@ -177,8 +177,12 @@ func shiftCounts(w int, ck *kind, withNeg bool) []val {
 // ---------------------------------------------------------------------------
 // floats
 
-func f32src(f float32) string { return fmt.Sprintf("math.Float32frombits(0x%08x)", math.Float32bits(f)) }
-func f64src(f float64) string { return fmt.Sprintf("math.Float64frombits(0x%016x)", math.Float64bits(f)) }
+func f32src(f float32) string {
+	return fmt.Sprintf("math.Float32frombits(0x%08x)", math.Float32bits(f))
+}
+func f64src(f float64) string {
+	return fmt.Sprintf("math.Float64frombits(0x%016x)", math.Float64bits(f))
+}
 
 func floatLit(f float64, bits int) string {
 	if math.IsNaN(f) || math.IsInf(f, 0) || (f == 0 && math.Signbit(f)) {
@@ -240,16 +244,16 @@ func floatSet(k *kind, full bool) []val {
 	inf, nan := math.Inf(1), math.NaN()
 	if k.Bits == 32 {
 		if !full {
-			return dedupeFloats(k, []float64{negZero, 1.5, 1<<24 - 1, math.MaxFloat32, -inf, nan})
+			return dedupeFloats(k, []float64{negZero, 1.5, 1<<24 - 1, math.MaxFloat32, -inf, nan, 0.3})
 		}
 		return dedupeFloats(k, []float64{0, negZero, 1, -1, 0.5, 1.5, 2.5, -2.5, 0.1, 3, 1e10, 1<<24 - 1, 1 << 24, 1<<24 + 2, -(1<<24 - 1),
-			math.MaxFloat32, -math.MaxFloat32, math.SmallestNonzeroFloat32, 1.1754943508222875e-38, inf, -inf, nan, 127, 255.5, 1 << 31, 0.3333333432674408})
+			math.MaxFloat32, -math.MaxFloat32, math.SmallestNonzeroFloat32, 1.1754943508222875e-38, inf, -inf, nan, 127, 255.5, 1 << 31, 0.3333333432674408, 0.3, -0.1})
 	}
 	if !full {
-		return dedupeFloats(k, []float64{negZero, 1.5, 1<<53 - 1, math.MaxFloat64, -inf, nan})
+		return dedupeFloats(k, []float64{negZero, 1.5, 1<<53 - 1, math.MaxFloat64, -inf, nan, 0.3})
 	}
 	return dedupeFloats(k, []float64{0, negZero, 1, -1, 0.5, 1.5, 2.5, -2.5, 0.1, 3, 1e10, 1<<24 - 1, 1 << 24, 1<<24 + 1, 1<<53 - 1, 1 << 53, 1<<53 + 2, -(1<<53 - 1),
-		math.MaxFloat64, -math.MaxFloat64, math.SmallestNonzeroFloat64, 2.2250738585072014e-308, inf, -inf, nan, math.MaxFloat32, 255.5, 1 << 63, 1.0 / 3})
+		math.MaxFloat64, -math.MaxFloat64, math.SmallestNonzeroFloat64, 2.2250738585072014e-308, inf, -inf, nan, math.MaxFloat32, 255.5, 1 << 63, 1.0 / 3, 0.3, -0.1})
 }
 
 // floatConvExtras are additional float sources used by float→integer
@@ -316,7 +320,7 @@ func complexSet(k *kind, full bool) []val {
 	if k.Bits == 64 {
 		mx, big1 = math.MaxFloat32, 1<<24-1
 	}
-	ps := [][2]float64{{1, 2}, {-1.5, 0.5}, {negZero, 0}, {nan, 1}, {mx, mx}, {1, -inf}}
+	ps := [][2]float64{{1, 2}, {-1.5, 0.5}, {negZero, 0}, {nan, 1}, {mx, mx}, {1, -inf}, {0.1, -0.3}}
 	if full {
 		ps = append(ps, [2]float64{0, 0}, [2]float64{1, 0}, [2]float64{0, 1}, [2]float64{3, -4}, [2]float64{0.1, 0.2}, [2]float64{big1, 1}, [2]float64{inf, inf},
 			[2]float64{nan, nan}, [2]float64{0, negZero}, [2]float64{-mx, 2}, [2]float64{1e-40, 1e-40}, [2]float64{inf, nan}, [2]float64{-2.5, -2.5}, [2]float64{1e10, 3})
@@ -420,6 +424,22 @@ func runeSources(k *kind) []val {
 	return dedupeInts(k, vs)
 }
 
+// convPatterns are additional integer sources of numeric conversions.
+func convPatterns(k *kind) []val {
+	mask := new(big.Int).Sub(pow2(k.Bits), big.NewInt(1))
+	var vs []*big.Int
+	for _, p := range []uint64{0x8182838485868788, 0x7172737475767778, 0x0102030405060708, 0x00000000ff00ff80} {
+		v := new(big.Int).SetUint64(p)
+		v.And(v, mask)
+		if k.Class == "sint" && v.Bit(k.Bits-1) == 1 {
+			v.Sub(v, pow2(k.Bits))
+		}
+		vs = append(vs, v)
+	}
+	vs = append(vs, bi(16777217), bi(33554435), bi(9007199254740993), bi(-16777217), new(big.Int).SetUint64(0xffffffffffffe7ff))
+	return dedupeInts(k, vs)
+}
+
 // ---------------------------------------------------------------------------
 // kind tables
 
@@ -446,7 +466,36 @@ func valueSet(k *kind, full bool) []val {
 
 // constSet is the set of constant operands of a kind: the values of the
 // reduced set that have a constant form, and a few more in the full tier.
+// Float and complex kinds have their own lists (most of their boundary values
+// have no constant form): they include decimal fractions that must be rounded
+// to the kind's precision, with both signs.
 func constSet(k *kind, full bool) []val {
+	switch k.Class {
+	case "float":
+		mx, big1, tiny := math.MaxFloat64, float64(1<<53-1), math.SmallestNonzeroFloat64
+		if k.Bits == 32 {
+			mx, big1, tiny = math.MaxFloat32, 1<<24-1, math.SmallestNonzeroFloat32
+		}
+		fs := []float64{0, 1.5, -0.1, mx, big1, 0.3}
+		if full {
+			fs = append(fs, 1, -1, -2.5, tiny, 1e10, -mx)
+		}
+		return dedupeFloats(k, fs)
+	case "complex":
+		mx := math.MaxFloat64
+		if k.Bits == 64 {
+			mx = math.MaxFloat32
+		}
+		ps := [][2]float64{{1, 2}, {-1.5, 0.5}, {0, 0}, {0.1, -0.3}, {mx, mx}, {0, 1}}
+		if full {
+			ps = append(ps, [2]float64{1, 0}, [2]float64{-0.1, 0.7}, [2]float64{3, -4}, [2]float64{1e10, 1e-10})
+		}
+		var out []val
+		for _, p := range ps {
+			out = append(out, complexVal(p[0], p[1], k))
+		}
+		return out
+	}
 	var out []val
 	seen := map[string]bool{}
 	addv := func(vs []val, max int) {
@@ -459,10 +508,6 @@ func constSet(k *kind, full bool) []val {
 		}
 	}
 	addv(valueSet(k, false), 6)
-	if k.isFloat() || k.isComplex() {
-		// the reduced float sets are mostly values without a constant form
-		addv(valueSet(k, true), 6)
-	}
 	if full {
 		addv(valueSet(k, true), 9)
 	}
